@@ -261,9 +261,11 @@ def wrong_password(ctx, prog, hier):
     ctx.floor("C13-D3/ORDER", "password recorded in unlock", len(setp), 1, site=un.site(), func=uq)
     loops = un.stmts(ast.For)
     for s in setp:
-        ok = bool(loops) and un.lexically_inside(s, lambda a: isinstance(a, (ast.For, ast.While))) is None and \
+        after_loop = bool(loops) and un.lexically_inside(s, lambda a: isinstance(a, (ast.For, ast.While))) is None and \
             un.must_precede(s, lambda n: n is loops[0].iter) is None
-        ctx.ob("C13-D3/ORDER", ok, un.site(s), "the password is recorded only after the loop over all accounts finished", func=uq)
+        ok = after_loop or un.guarded(s, f"account.decrypt({upw})")[0]
+        ctx.ob("C13-D3/ORDER", ok, un.site(s), "the password is recorded only for an account it has just decrypted, or after the loop over all accounts finished "
+               "(a refused password records nothing)", func=uq, key=f"C13-D3/ORDER|{uq}|store|{'after' if after_loop else 'in'}-loop")
     fr = [r for r in un.stmts(ast.Return) if is_const(r.value, False)]
     ok = bool(fr) and all(un.guarded(r, f"account.encrypted and not account.decrypt({upw})")[0] for r in fr)
     ctx.ob("C13-D3/GATE", ok, un.site(), "unlock stops with False at the first account the password does not decrypt", func=uq)
@@ -301,7 +303,7 @@ def passthrough(ctx, prog):
     ctx.ob("C13-D3/DEP", len(s) == 1 and dotted(s[0].value) == we.fi.params()[1], we.site(), "Wallet.encrypt records the password it was given", func=we.fi.qualname)
     wu = ctx.fa(f"{W}.unlock")
     s = [x for x in wu.stmts(ast.Assign) if any(dotted(t) == "self.encryption_password" for t in x.targets)]
-    ctx.ob("C13-D3/DEP", len(s) == 1 and dotted(s[0].value) == wu.fi.params()[1], wu.site(), "Wallet.unlock records the password it was given", func=wu.fi.qualname)
+    ctx.ob("C13-D3/DEP", len(s) >= 1 and all(dotted(x.value) == wu.fi.params()[1] for x in s), wu.site(), "Wallet.unlock records the password it was given", func=wu.fi.qualname)
     lk = ctx.fa(f"{W}.lock")
     ok = any(unparse(c) == "account.encrypt(self.encryption_password)" for c in lk.calls(name="encrypt"))
     ctx.ob("C13-D3/DEP", ok, lk.site(), "lock re-encrypts with the recorded password", func=lk.fi.qualname)
@@ -413,10 +415,31 @@ def unlock_completes(ctx, prog):
     un = ctx.fa("lbry.wallet.wallet.Wallet.unlock")
     sets = [s for s in un.stmts(ast.Assign) if any(unparse(t) == "self.encryption_password" for t in s.targets)]
     between = [c for c in un.calls() if dotted(c.func) and dotted(c.func).split(".")[-1] not in ("decrypt", "ensure_cache_primed")]
-    ok = len(sets) == 1 and not between
+    ok = len(sets) >= 1 and not between
     ctx.ob("C13-D7/NONE", ok, un.site(), "Wallet.unlock calls nothing but account.decrypt and ensure_cache_primed before it records the password", func=un.fi.qualname,
            detail="" if ok else f"other calls: {[unparse(c)[:60] for c in between]}", key="C13-D7/NONE|unlock|calls")
-
+    # F19: ... and it records the password before it hands control back to the event loop.  While unlock() is suspended in an await, the accounts decrypted so
+    # far are plaintext in memory, ENCRYPT_ON_DISK is set and encryption_password is still None: a save() from any other task takes its "no password
+    # available: reset the preference, save unencrypted" branch and writes the seed in clear (triage/f19_unlock_window.py).
+    decs = [c for c in un.calls(name="decrypt")]
+    ctx.floor("C13-D7/WINDOW", "account.decrypt calls of Wallet.unlock", len(decs), 1, site=un.site(), func=un.fi.qualname)
+    store_ids = {n.id for s_ in sets for n in un.cfg_nodes(s_)}
+    waits = list(un.local_nodes(ast.Await))
+    for c in decs:
+        src = un.cfg_nodes(c)
+        bad = None
+        for a in waits:
+            p = un.path(src, un.cfg_nodes(a), avoid=lambda n: n.id in store_ids, include_exc=False)
+            if p is not None:
+                bad = (a, p)
+                break
+        ctx.ob("C13-D7/WINDOW", bad is None, un.site(bad[0]) if bad else un.site(c),
+               "the password is recorded before the first await that follows a decrypted account (a concurrent save() in between writes the decrypted accounts in "
+               "plaintext and switches encryption off)", func=un.fi.qualname, key="C13-D7/WINDOW|unlock",
+               detail="" if bad is None else f"`{unparse(bad[0])[:80]}` is reached from the decrypt without the password being recorded: {un.fmt_path(bad[1])}")
+    for s_ in sets:
+        ok = unparse(s_.value) == un.fi.params()[1]
+        ctx.ob("C13-D7/WINDOW", ok, un.site(s_), "what is recorded is the password that was given", func=un.fi.qualname, key=f"C13-D7/WINDOW|unlock|value|{len([x for x in sets if x.lineno <= s_.lineno])}")
 
 def roundtrip(ctx, prog):
     """the completeness half of the round trip: every secret that exists is written / restored, under exactly the functions' own tests;
